@@ -68,15 +68,10 @@ def _self_stores(f, chain):
             out.append((b, i, st))
     return out
 
-def run_cfg(ctx, p, cfg):
-    if "config_parsing" in p.meta.get("features", []):
-        # "without panicking": the reloader installs what the lossy build kept; the install indexes the appender table by every
-        # name a logger still refers to, so no dangling reference may survive the build (C13.V2 re-evaluated)
-        from rules import c13
-        c13.rule_retention(ctx, p, cfg, "A10")
-    from rules import c02
-    c02.rule_install_publishes(ctx, p, cfg, "A11")   # "records logged after the swap use the new configuration": the facade's global maximum published with a swap is the new logger's
-    with ctx.rule("A1", "one snapshot per call", cfg) as r:
+
+def rule_one_snapshot(ctx, p, cfg, rid="A1"):
+    """each logging call works on one snapshot of the configuration: tree, appender table and error handler come from a single load"""
+    with ctx.rule(rid, "one snapshot per call", cfg) as r:
         snap, lf = snapshot_adt(p)
         for path in (anchors.LOG_LOG, anchors.LOG_ENABLED, anchors.LOG_FLUSH):
             f = p.fn_loops(path)
@@ -118,6 +113,135 @@ def run_cfg(ctx, p, cfg):
         snap_fields = {x["name"] for x in p.adt(snap)["variants"][0]["fields"]}
         r.require(used == snap_fields, "log:uses-whole-snapshot", fn=f, detail="snapshot fields used in log(): %s of %s" % (sorted(used), sorted(snap_fields)))
 
+
+def rule_reloader_flow(ctx, p, cfg, rid="A5"):
+    """the refresh thread: errors keep it polling; a configuration is applied only after it parsed and only when the text changed; the
+    unchanged-file shortcut is an exact equality of modification times"""
+    with ctx.rule(rid, "reloader control flow", cfg) as r:
+        f = p.fn(RUN)
+        ro_ = f.call1(RUN_ONCE, "run_once")
+        sl = f.call1("std::thread::functions::sleep", "thread::sleep")
+        r.require(f.in_loop(ro_.block) and f.in_loop(sl.block), "polls-in-loop", fn=f, detail="sleep and run_once are inside the loop")
+        outer = None
+        for b in f.blocks:
+            if b["term"]["k"] == "switch" and b["id"] in f.reachable_blocks():
+                si = SwitchInfo(f, b["id"])
+                e = strip(si.discr)
+                if e[0] == "discr" and strip(e[1])[0] == "call" and strip(e[1])[1] == RUN_ONCE:
+                    outer = si
+        if outer is None:
+            raise ShapeUnrecognised("no match on run_once's Result in run")
+        et = outer.target_of("Err")
+        rets = set(f.return_blocks())
+        er = f.reach(et, avoid={ro_.block}, include_src=True)
+        r.require(et is not None and not (er & rets) and ro_.block in f.reach(et, include_src=True), "err-keeps-polling", fn=f,
+                  detail="from the Err arm the loop head is reached and return is not (before the next poll)")
+        r.require(any(c.callee == "handle_error" or "handle" in (c.callee or "") for c in f.calls() if c.block in er), "err-is-reported", fn=f, detail="the error is handed to the crate's error reporter")
+        okt = outer.target_of("Ok")
+        # inner switch on the Option
+        inner = None
+        for b in f.blocks:
+            if b["term"]["k"] == "switch" and b["id"] in f.reach(okt, include_src=True):
+                si = SwitchInfo(f, b["id"])
+                e = strip(si.discr)
+                if e[0] == "discr" and any(x[0] == "as" and x[2] == "Ok" for x in walk(e)):
+                    inner = si
+        if inner is None:
+            raise ShapeUnrecognised("no match on the Ok payload (Option<Duration>) in run")
+        st, nt = inner.target_of("Some"), inner.target_of("None")
+        r.require(not (f.reach(st, avoid={ro_.block}, include_src=True) & rets), "some-keeps-polling", fn=f, detail="Ok(Some(rate)) continues the loop")
+        r.require(bool(f.reach(nt, avoid={ro_.block}, include_src=True) & rets), "none-stops", fn=f, detail="Ok(None) leaves the loop")
+        rate_arg = ro_.arg(1)
+        r.require(any(x[0] == "as" and x[2] == "Some" for x in walk(rate_arg)) and any(x == ("param", 2) for x in walk(rate_arg)), "rate-updated-from-result", fn=f,
+                  detail="rate passed to run_once/sleep: %s" % show(rate_arg, 5))
+        # run_once
+        g = p.fn(RUN_ONCE)
+        sc = g.call1(SET_CONFIG, "Handle::set_config")
+        pr = g.call1(PARSE, "Format::parse")
+        conds = g.conditions(sc.block)
+        parse_ok = False
+        changed = False
+        for sb, si, al in conds:
+            e = strip(si.discr)
+            labs = {si.label(v) for v, _ in al}
+            if e[0] == "discr" and any(x[0] == "call" and x[1] == PARSE for x in walk(e)) and any(x[0] == "call" and x[1].endswith("Try::branch") for x in walk(e)):
+                parse_ok = labs == {"Continue"}
+            if e[0] == "discr" and strip(e[1])[0] == "call" and strip(e[1])[1] == PARSE:
+                parse_ok = labs == {"Ok"}
+            nf = cmp_nf(si.discr, True in labs) if labs in ({True}, {False}) else None
+            if nf and nf[0] == "Ne":
+                a, b2 = deep_strip(nf[1]), deep_strip(nf[2])
+                txt = lambda e: any(x[0] == "call" and x[1] == "config::file::read_config" for x in walk(e))
+                old = lambda e: any(x[0] == "field" and x[1] == ("param", 1) and x[2] == "source" for x in walk(e)) or e[0] == "phi"
+                if (txt(a) and old(b2)) or (txt(b2) and old(a)):
+                    changed = True
+        r.require(parse_ok, "apply-only-parsed-config", fn=g, site=sc.at, detail="set_config is dominated by the success edge of Format::parse")
+        r.require(changed, "apply-only-when-text-changed", fn=g, site=sc.at, detail="set_config is control-dependent on new text != stored text")
+        cfgarg = sc.arg(1)
+        r.require(any(x[0] == "call" and x[1] == PARSE for x in walk(cfgarg)), "applies-the-parsed-config", fn=g, site=sc.at, detail="set_config argument %s" % show(cfgarg, 6))
+        r.require(deep_strip(sc.arg(0)) == ("field", ("param", 1), "handle") or any(x == ("param", 1) for x in walk(sc.arg(0))), "own-handle", fn=g, detail="handle %s" % show(sc.arg(0)))
+        ptxt = pr.arg(1)
+        okp = any(x[0] == "call" and x[1] == "config::file::read_config" for x in walk(ptxt))
+        if not okp and _chain(ptxt) is not None:
+            # the text is parsed out of the field it was just remembered in: some store of the text read into that field dominates the parse
+            okp = any(g.dominates(b_, pr.block) and any(x[0] == "call" and x[1] == "config::file::read_config" for x in walk(g._rvalue(st_["rv"], frozenset(), 30, b_)))
+                      for b_, i_, st_ in _self_stores(g, _chain(ptxt)))
+        r.require(okp, "parses-the-new-text", fn=g, site=pr.at, detail="parsed text %s" % show(ptxt, 5))
+        # returns
+        rets = q.ret_assignments(g)
+        kinds = []
+        for b, e in rets:
+            if q.classify_ret(e) == "ok":
+                pay = dict(e[3]).get("0")
+                reach_sc = g.can_reach(sc.block, b) or b == sc.block
+                if reach_sc:
+                    okr = any(x[0] == "call" and x[1] == "config::raw::RawConfig::refresh_rate" and any(y[0] == "call" and y[1] == PARSE for y in walk(x)) for x in walk(pay))
+                    r.require(okr, "new-rate-from-parsed-config", fn=g, detail="after applying, returns %s" % show(pay, 5))
+                    kinds.append("applied")
+                else:
+                    okr = pay[0] == "agg" and pay[2] == "Some" and deep_strip(dict(pay[3]).get("0")) == ("param", 2)
+                    r.require(okr, "unchanged-returns-same-rate:bb%d" % 0, fn=g, detail="unchanged edge returns %s" % show(pay, 4))
+                    kinds.append("unchanged")
+        r.require("applied" in kinds and "unchanged" in kinds, "both-outcomes", fn=g, detail="return kinds: %s" % kinds)
+        # unchanged edges do not touch the handle: set_config unreachable from equal-edges
+        for b in g.blocks:
+            if b["term"]["k"] == "switch" and b["id"] in g.reachable_blocks():
+                si = SwitchInfo(g, b["id"])
+                nf = cmp_nf(si.discr, True)
+                if nf and nf[0] in ("Eq", "Ne"):
+                    t = si.target_of(nf[0] == "Eq")
+                    r.require(sc.block not in g.reach(t, include_src=True), "equal-edge-leaves-logger-alone:bb%d" % 0 if False else "equal-edge-leaves-logger-alone:%s" % ("mtime" if any(x[0] == "call" and "metadata" in x[1] for x in walk(si.discr)) else "text"), fn=g,
+                              detail="from the `==` edge of %s set_config is unreachable" % show(si.discr, 4))
+        # the mtime shortcut must be an exact equality: timestamps can move backwards (restored backup, clock step)
+        mt = []
+        for blk in g.blocks:
+            if blk["term"]["k"] == "switch" and blk["id"] in g.reachable_blocks():
+                si = SwitchInfo(g, blk["id"])
+                nf = cmp_nf(si.discr, True)
+                if nf and any(x[0] == "call" and x[1] == "std::fs::Metadata::modified" or (x[0] == "closure") for y in nf[1:] for x in walk(y)) and any(x[0] == "field" and x[2] == "modified" for y in nf[1:] for x in walk(y)):
+                    mt.append((nf[0], si))
+        r.require(len(mt) == 1 and mt[0][0] in ("Eq", "Ne"), "mtime-shortcut-is-exact-equality", fn=g, detail="stored mtime vs file mtime compared with: %s" % [m[0] for m in mt],
+                  fail_detail="the unchanged-file shortcut compares modification times with %s instead of ==: a changed file whose mtime did not increase (restored backup, clock step) is never applied" % [m[0] for m in mt])
+        # parse error keeps last good config: Break edge of parse cannot reach set_config
+        for b in g.blocks:
+            if b["term"]["k"] == "switch" and b["id"] in g.reachable_blocks():
+                si = SwitchInfo(g, b["id"])
+                e = strip(si.discr)
+                if e[0] == "discr" and any(x[0] == "call" and x[1] == PARSE for x in walk(e)):
+                    bt = si.target_of("Break") or si.target_of("Err")
+                    r.require(bt is not None and sc.block not in g.reach(bt, include_src=True), "parse-error-keeps-last-good", fn=g, detail="the failure edge of parse cannot reach set_config")
+        starts = p.all_calls(RUN)
+        r.require(len(starts) == 1, "reloader-started-once", detail="callers of ConfigReloader::run: %s" % [c.fn.path for c in starts])
+
+def run_cfg(ctx, p, cfg):
+    if "config_parsing" in p.meta.get("features", []):
+        # "without panicking": the reloader installs what the lossy build kept; the install indexes the appender table by every
+        # name a logger still refers to, so no dangling reference may survive the build (C13.V2 re-evaluated)
+        from rules import c13
+        c13.rule_retention(ctx, p, cfg, "A10")
+    from rules import c02
+    c02.rule_install_publishes(ctx, p, cfg, "A11")   # "records logged after the swap use the new configuration": the facade's global maximum published with a swap is the new logger's
+    rule_one_snapshot(ctx, p, cfg, "A1")
     with ctx.rule("A2", "immutable self-contained snapshot", cfg) as r:
         snap, lf = snapshot_adt(p)
         ro = anchors.routing(p)
@@ -252,118 +376,4 @@ def run_cfg(ctx, p, cfg):
             r.require(any(f.dominates(b, sc.block) for b, i, st in good), "remembered-before-the-config-is-applied", fn=f, site=sc.at,
                       detail="every path that installs a configuration has replaced the remembered text first")
 
-    with ctx.rule("A5", "reloader control flow", cfg) as r:
-        f = p.fn(RUN)
-        ro_ = f.call1(RUN_ONCE, "run_once")
-        sl = f.call1("std::thread::functions::sleep", "thread::sleep")
-        r.require(f.in_loop(ro_.block) and f.in_loop(sl.block), "polls-in-loop", fn=f, detail="sleep and run_once are inside the loop")
-        outer = None
-        for b in f.blocks:
-            if b["term"]["k"] == "switch" and b["id"] in f.reachable_blocks():
-                si = SwitchInfo(f, b["id"])
-                e = strip(si.discr)
-                if e[0] == "discr" and strip(e[1])[0] == "call" and strip(e[1])[1] == RUN_ONCE:
-                    outer = si
-        if outer is None:
-            raise ShapeUnrecognised("no match on run_once's Result in run")
-        et = outer.target_of("Err")
-        rets = set(f.return_blocks())
-        er = f.reach(et, avoid={ro_.block}, include_src=True)
-        r.require(et is not None and not (er & rets) and ro_.block in f.reach(et, include_src=True), "err-keeps-polling", fn=f,
-                  detail="from the Err arm the loop head is reached and return is not (before the next poll)")
-        r.require(any(c.callee == "handle_error" or "handle" in (c.callee or "") for c in f.calls() if c.block in er), "err-is-reported", fn=f, detail="the error is handed to the crate's error reporter")
-        okt = outer.target_of("Ok")
-        # inner switch on the Option
-        inner = None
-        for b in f.blocks:
-            if b["term"]["k"] == "switch" and b["id"] in f.reach(okt, include_src=True):
-                si = SwitchInfo(f, b["id"])
-                e = strip(si.discr)
-                if e[0] == "discr" and any(x[0] == "as" and x[2] == "Ok" for x in walk(e)):
-                    inner = si
-        if inner is None:
-            raise ShapeUnrecognised("no match on the Ok payload (Option<Duration>) in run")
-        st, nt = inner.target_of("Some"), inner.target_of("None")
-        r.require(not (f.reach(st, avoid={ro_.block}, include_src=True) & rets), "some-keeps-polling", fn=f, detail="Ok(Some(rate)) continues the loop")
-        r.require(bool(f.reach(nt, avoid={ro_.block}, include_src=True) & rets), "none-stops", fn=f, detail="Ok(None) leaves the loop")
-        rate_arg = ro_.arg(1)
-        r.require(any(x[0] == "as" and x[2] == "Some" for x in walk(rate_arg)) and any(x == ("param", 2) for x in walk(rate_arg)), "rate-updated-from-result", fn=f,
-                  detail="rate passed to run_once/sleep: %s" % show(rate_arg, 5))
-        # run_once
-        g = p.fn(RUN_ONCE)
-        sc = g.call1(SET_CONFIG, "Handle::set_config")
-        pr = g.call1(PARSE, "Format::parse")
-        conds = g.conditions(sc.block)
-        parse_ok = False
-        changed = False
-        for sb, si, al in conds:
-            e = strip(si.discr)
-            labs = {si.label(v) for v, _ in al}
-            if e[0] == "discr" and any(x[0] == "call" and x[1] == PARSE for x in walk(e)) and any(x[0] == "call" and x[1].endswith("Try::branch") for x in walk(e)):
-                parse_ok = labs == {"Continue"}
-            if e[0] == "discr" and strip(e[1])[0] == "call" and strip(e[1])[1] == PARSE:
-                parse_ok = labs == {"Ok"}
-            nf = cmp_nf(si.discr, True in labs) if labs in ({True}, {False}) else None
-            if nf and nf[0] == "Ne":
-                a, b2 = deep_strip(nf[1]), deep_strip(nf[2])
-                txt = lambda e: any(x[0] == "call" and x[1] == "config::file::read_config" for x in walk(e))
-                old = lambda e: any(x[0] == "field" and x[1] == ("param", 1) and x[2] == "source" for x in walk(e)) or e[0] == "phi"
-                if (txt(a) and old(b2)) or (txt(b2) and old(a)):
-                    changed = True
-        r.require(parse_ok, "apply-only-parsed-config", fn=g, site=sc.at, detail="set_config is dominated by the success edge of Format::parse")
-        r.require(changed, "apply-only-when-text-changed", fn=g, site=sc.at, detail="set_config is control-dependent on new text != stored text")
-        cfgarg = sc.arg(1)
-        r.require(any(x[0] == "call" and x[1] == PARSE for x in walk(cfgarg)), "applies-the-parsed-config", fn=g, site=sc.at, detail="set_config argument %s" % show(cfgarg, 6))
-        r.require(deep_strip(sc.arg(0)) == ("field", ("param", 1), "handle") or any(x == ("param", 1) for x in walk(sc.arg(0))), "own-handle", fn=g, detail="handle %s" % show(sc.arg(0)))
-        ptxt = pr.arg(1)
-        okp = any(x[0] == "call" and x[1] == "config::file::read_config" for x in walk(ptxt))
-        if not okp and _chain(ptxt) is not None:
-            # the text is parsed out of the field it was just remembered in: some store of the text read into that field dominates the parse
-            okp = any(g.dominates(b_, pr.block) and any(x[0] == "call" and x[1] == "config::file::read_config" for x in walk(g._rvalue(st_["rv"], frozenset(), 30, b_)))
-                      for b_, i_, st_ in _self_stores(g, _chain(ptxt)))
-        r.require(okp, "parses-the-new-text", fn=g, site=pr.at, detail="parsed text %s" % show(ptxt, 5))
-        # returns
-        rets = q.ret_assignments(g)
-        kinds = []
-        for b, e in rets:
-            if q.classify_ret(e) == "ok":
-                pay = dict(e[3]).get("0")
-                reach_sc = g.can_reach(sc.block, b) or b == sc.block
-                if reach_sc:
-                    okr = any(x[0] == "call" and x[1] == "config::raw::RawConfig::refresh_rate" and any(y[0] == "call" and y[1] == PARSE for y in walk(x)) for x in walk(pay))
-                    r.require(okr, "new-rate-from-parsed-config", fn=g, detail="after applying, returns %s" % show(pay, 5))
-                    kinds.append("applied")
-                else:
-                    okr = pay[0] == "agg" and pay[2] == "Some" and deep_strip(dict(pay[3]).get("0")) == ("param", 2)
-                    r.require(okr, "unchanged-returns-same-rate:bb%d" % 0, fn=g, detail="unchanged edge returns %s" % show(pay, 4))
-                    kinds.append("unchanged")
-        r.require("applied" in kinds and "unchanged" in kinds, "both-outcomes", fn=g, detail="return kinds: %s" % kinds)
-        # unchanged edges do not touch the handle: set_config unreachable from equal-edges
-        for b in g.blocks:
-            if b["term"]["k"] == "switch" and b["id"] in g.reachable_blocks():
-                si = SwitchInfo(g, b["id"])
-                nf = cmp_nf(si.discr, True)
-                if nf and nf[0] in ("Eq", "Ne"):
-                    t = si.target_of(nf[0] == "Eq")
-                    r.require(sc.block not in g.reach(t, include_src=True), "equal-edge-leaves-logger-alone:bb%d" % 0 if False else "equal-edge-leaves-logger-alone:%s" % ("mtime" if any(x[0] == "call" and "metadata" in x[1] for x in walk(si.discr)) else "text"), fn=g,
-                              detail="from the `==` edge of %s set_config is unreachable" % show(si.discr, 4))
-        # the mtime shortcut must be an exact equality: timestamps can move backwards (restored backup, clock step)
-        mt = []
-        for blk in g.blocks:
-            if blk["term"]["k"] == "switch" and blk["id"] in g.reachable_blocks():
-                si = SwitchInfo(g, blk["id"])
-                nf = cmp_nf(si.discr, True)
-                if nf and any(x[0] == "call" and x[1] == "std::fs::Metadata::modified" or (x[0] == "closure") for y in nf[1:] for x in walk(y)) and any(x[0] == "field" and x[2] == "modified" for y in nf[1:] for x in walk(y)):
-                    mt.append((nf[0], si))
-        r.require(len(mt) == 1 and mt[0][0] in ("Eq", "Ne"), "mtime-shortcut-is-exact-equality", fn=g, detail="stored mtime vs file mtime compared with: %s" % [m[0] for m in mt],
-                  fail_detail="the unchanged-file shortcut compares modification times with %s instead of ==: a changed file whose mtime did not increase (restored backup, clock step) is never applied" % [m[0] for m in mt])
-        # parse error keeps last good config: Break edge of parse cannot reach set_config
-        for b in g.blocks:
-            if b["term"]["k"] == "switch" and b["id"] in g.reachable_blocks():
-                si = SwitchInfo(g, b["id"])
-                e = strip(si.discr)
-                if e[0] == "discr" and any(x[0] == "call" and x[1] == PARSE for x in walk(e)):
-                    bt = si.target_of("Break") or si.target_of("Err")
-                    r.require(bt is not None and sc.block not in g.reach(bt, include_src=True), "parse-error-keeps-last-good", fn=g, detail="the failure edge of parse cannot reach set_config")
-        starts = p.all_calls(RUN)
-        r.require(len(starts) == 1, "reloader-started-once", detail="callers of ConfigReloader::run: %s" % [c.fn.path for c in starts])
+    rule_reloader_flow(ctx, p, cfg, "A5")
